@@ -2,7 +2,8 @@
 
 Spec: Constraint.tla (state machine of one constrained parameter: code-shaped con/raw next to the semantic machine
 allowed/sem) and ConstraintPriors.tla (lattice of rational prior evaluation points with the exact parts of the
-documented densities).  Binding: every TLC-generated history is replayed step by step into every constrained
+documented densities; HSpec: the history of a prior object - assign / load / load through the owning module / copy /
+dtype conversion - with the hyper-parameters the object must report and use after every step).  Binding: every TLC-generated history is replayed step by step into every constrained
 parameter of every exported kernel / likelihood / mean class found by introspection; the transform contract is swept
 over the float range; prior densities are compared with mpmath (checks/c17_priors.py)."""
 import ast
@@ -1008,8 +1009,9 @@ def run(ck):
                "SetViaPriorClosure / LoadStateDict(other bounds) / AssignBound / Convert(dtype) / Deepcopy of the Constraint.tla machine up to the "
                "run's length (2 with the full value alphabet, 3-4 (quick) and 4-5 (thorough) with reduced alphabets), replayed on constrained parameters of every exported class; non-trivial = contains an accepted "
                "assignment and at least one of: rejected / exact-bound / non-finite value, optimiser step, constraint exchange, saturating raw "
-               "value; distinct = distinct (class, variant, parameter, operation sequence).  Further cases: transform-contract cells and prior "
-               "density points (see sections)")
+               "value; distinct = distinct (class, variant, parameter, operation sequence).  Further cases: transform-contract cells, prior "
+               "density points and histories of prior objects (every operation sequence of HSpec of length 3 per prior class, checked after "
+               "every step; see sections)")
     ck.assumptions = [
         "float64 (default dtype set to float64 in the replay processes), single thread",
         "out-of-bounds assignments must be rejected at clearly outside values (further than 1e-6 * max(1, |bound|) from the interval, "
@@ -1032,6 +1034,14 @@ def run(ck):
         "composite convenience properties that are not the raw_<p>/<p> pair of a constrained parameter are outside the claim",
         "SmoothedBoxPrior: the docstring's exponent is read as the Gaussian tail exp(-d^2 / (2 sigma^2)) the normalisation constant _M documents",
         "LKJCholeskyFactorPrior is read as torch's documented LKJCholesky density over Cholesky factors",
+        "history of a prior object (ConstraintPriors.tla, HSpec): the hyper-parameters a prior HAS are the ones last constructed / assigned "
+        "through its public attributes / loaded (prior.load_state_dict, or load_state_dict of the module it is registered on, from a model "
+        "of the same architecture); log_prob must be the documented density at them and the attributes and state_dict() must report them, "
+        "also after copy.deepcopy / pickle and .double() / .float().double() (all lattice values are dyadic, so float32 keeps them).  "
+        "Attributes assigned: the distribution's documented ones (loc, scale, concentration, rate, low, high, a, b); sigma of "
+        "SmoothedBoxPrior (kept twice: sigma and tails.scale) and the covariance of MultivariateNormalPrior have no single public "
+        "attribute and change by loading only.  UniformPrior and LKJ priors keep their hyper-parameters outside the state dict: loading "
+        "leaves them as they are (the object still reports what log_prob uses)",
     ]
     from checks import c17_priors
 
@@ -1055,9 +1065,13 @@ def run(ck):
             mod, cfg = write_mc(gwd, "%s_%s" % (name, kind), cons, alph, L, True)
             jobs.append(((mod, cfg), dict(name=PID + "/gen_%s_%s" % (name, kind), dump=True, check=False, workers=4, coverage=False, timeout=900)))
             meta.append(("gen", kind, name, L))
-    pmod, pcfg = c17_priors.write_mc(os.path.join(tlc.BUILD, PID, "priors_mc"), thorough)
+    pmod, pcfg, hcfg, rcfg = c17_priors.write_mc(os.path.join(tlc.BUILD, PID, "priors_mc"), thorough)
     jobs.append(((pmod, pcfg), dict(name=PID + "/priors", dump=True, check=False, workers=2, coverage=False)))
     meta.append(("priors", None, None, 0))
+    jobs.append(((pmod, hcfg), dict(name=PID + "/priors_hist", dump=True, check=False, workers=2)))
+    meta.append(("priors_hist", "as coded", None, 0))
+    jobs.append(((pmod, rcfg), dict(name=PID + "/priors_hist_repaired", check=False, workers=2)))
+    meta.append(("priors_hist", "alias kept", None, 0))
     results = tlc.run_many(jobs, parallel=4)
     phases["tlc"] = round(time.time() - t0, 1)
 
@@ -1076,7 +1090,7 @@ def run(ck):
 
     items = []
     taken = {}
-    prior_points = None
+    prior_points = prior_hists = None
     for (what, kind, name, L), res in zip(meta, results):
         ck.add_tlc(res, "%s %s %s" % (what, kind or "", name or ""))
         if res.violation is not None:
@@ -1088,6 +1102,11 @@ def run(ck):
             continue
         if what == "priors":
             prior_points = res.states()
+            continue
+        if what == "priors_hist":
+            ck.require_coverage(res, ["HAssign", "HLoad", "HModLoad", "HCopy", "HConv"])
+            if kind == "as coded":
+                prior_hists = res.states()
             continue
         hists = read_histories(res.dump_path, L)
         if not hists:
@@ -1135,6 +1154,8 @@ def run(ck):
     phases["transforms"] = round(time.time() - t0, 1)
     c17_priors.run_priors(ck, prior_points, thorough, cells)
     phases["priors"] = round(time.time() - t0, 1)
+    c17_priors.run_prior_histories(ck, prior_hists, thorough)
+    phases["prior_histories"] = round(time.time() - t0, 1)
     c17_priors.run_observations(ck)
 
 
